@@ -22,6 +22,7 @@ SAN_ENV = {
 # harness registry (name -> build recipe)
 harness("c08_symbols", "san", "pbt/c08_symbols.cc", link="-lrapidcheck")
 harness("geom_pbt", "san", "pbt/geom_pbt.cc", link="-lrapidcheck")
+harness("c13_corner_table", "san", "pbt/c13_corner_table.cc", link="-lrapidcheck")
 
 # ------------------------------------------------------------------------------------------------
 
@@ -297,7 +298,23 @@ def check_c12(tier):
                        "pair_eb_pseq", "pair_mseq_eb"])
 
 
+def check_c13(tier):
+    t0 = time.time()
+    exe = ensure_built(["c13_corner_table"])["c13_corner_table"]
+    res = Result()
+    run_shards(res, "C13", "c13_corner_table", exe, "c13enum", tier, 16, 1, extra_args=["--enum"], label="enum")
+    run_shards(res, "C13", "c13_corner_table", exe, "c13", tier, 16, 12000 if tier == "quick" else 100000)
+    res.required_classes = ["edge_with_3plus_faces", "bowtie_or_split_vertex", "mirrored_or_duplicate_pair",
+                            "degenerate_face", "attribute_corner_tables_with_seam", "enumerated_lists_with_shared_edge"]
+    # the enumerated part is complete for its stated space; the random part is not - say so
+    res.extra["exhaustive_part"] = "all ordered lists of 1..%d triangles over ids 0..4" % (3 if tier == "quick" else 4)
+    res.exhaustive = None
+    return finish("C13", tier, res, t0,
+                  assumptions=["exhaustive only for the enumerated sub-space (see exhaustive_part); larger lists are sampled"])
+
+
 CHECKS = {
+    "C13": check_c13,
     "C04": check_c04,
     "C10": check_c10,
     "C12": check_c12,
@@ -308,6 +325,7 @@ CHECKS = {
 
 REPLAYERS = {
     # property -> list of (harness, default mode)
+    "C13": [("c13_corner_table", "c13")],
     "C01": [("geom_pbt", "c01")],
     "C04": [("geom_pbt", "c04")],
     "C10": [("geom_pbt", "c10")],
